@@ -49,7 +49,8 @@ def custom_classes():
 
     tsort t   Reordering: stable sort by descending value of column t (a user-defined sort)
     cfilt t   RowFilter: keeps rows whose value in column t is even (reads t; order independent)
-    alt       RowFilter: keeps rows at even positions (order and count dependent, declared like Slice)"""
+    alt       RowFilter: keeps rows at even positions (order and count dependent, declared like Slice)
+    atleast n RowFilter: keeps every row if there are at least n of them, else none (count dependent, order independent)"""
     global _CUSTOM
     if _CUSTOM is None:
         import dataclasses
@@ -110,7 +111,29 @@ def custom_classes():
             def applied_max_rows(self, target):
                 return target.max_rows
 
-        _CUSTOM = (TotalSort, EvenFilter, Alternate)
+        @dataclasses.dataclass(frozen=True)
+        class AtLeast(RowFilter):
+            n: int
+
+            def __str__(self):
+                return f"atleast[{self.n}]"
+
+            @property
+            def is_order_dependent(self):
+                return False
+
+            @property
+            def is_count_dependent(self):
+                return True
+
+            @property
+            def is_empty_invariant(self):
+                return False
+
+            def applied_max_rows(self, target):
+                return target.max_rows
+
+        _CUSTOM = (TotalSort, EvenFilter, Alternate, AtLeast)
     return _CUSTOM
 
 
@@ -120,7 +143,9 @@ def st_op(draw, cols, universe, fixed_cols, kind=None, custom=False):
     free = [t for t in universe if t not in cols]
     ks = ["sel", "slice", "dedup", "pjoin"]
     if custom and draw(st.integers(0, 5)) == 0:
-        k = draw(st.sampled_from(["alt"] + (["cfilt", "tsort"] if cols else [])))
+        k = draw(st.sampled_from(["alt", "atleast"] + (["cfilt", "tsort"] if cols else [])))
+        if k == "atleast":
+            return (k, draw(st.integers(1, 4)))
         return (k, draw(st.sampled_from(cols))) if k != "alt" else (k,)
     if cols:
         ks += ["sort", "proj", "proj"]
@@ -158,6 +183,12 @@ def st_case(draw):
     cols1 = cols_after(existing, cols0, frozenset(fixed[1]))
     # the new operation is drawn for the columns it will see, but may also name a tag the existing operation hid
     new = draw(st_op(cols1, universe, fixed[1]))
+    if new[0] == "pjoin" and fixed[1] and draw(st.integers(0, 2)) == 0:
+        # the fixed operand is itself a tree: deduplication, then a projection (which may bring duplicates back)
+        order = draw(st.permutations(sorted_tags(fixed[1])))
+        keep = tuple(order[: draw(st.integers(0, len(order)))])
+        if new[2] is None or cols_p(new[2]) <= (cols1 | frozenset(keep)):
+            return (universe, (leaf, fixed), existing, new, ("dp", keep))
     return (universe, (leaf, fixed), existing, new)
 
 
@@ -207,7 +238,7 @@ def well_formed_columns(spec, fixed_cols):
         return set(cols_p(spec[1]))
     if k == "sort":
         return set().union(*[cols_e(e) for e, _ in spec[1]]) if spec[1] else set()
-    if k in ("dedup", "slice", "alt"):
+    if k in ("dedup", "slice", "alt", "atleast"):
         return set()
     if k in ("cfilt", "tsort"):
         return {spec[1]}
@@ -236,6 +267,8 @@ def apply_spec(spec, rows, cols, fixed_rows, fixed_cols):
         return [r for r in rows if r[spec[1]] % 2 == 0]
     if k == "alt":
         return rows[::2]
+    if k == "atleast":
+        return rows if len(rows) >= spec[1] else []
     if k == "pjoin":
         common = spec[3] if len(spec) > 3 else [t for t in sorted_tags(cols & fixed_cols) if t.is_key]
         if spec[1]:
@@ -261,8 +294,10 @@ def to_lib(spec, fixed_rel):
     if k == "slice":
         return Slice(spec[1], spec[2])
     if k in ("tsort", "cfilt", "alt"):
-        TotalSort, EvenFilter, Alternate = custom_classes()
+        TotalSort, EvenFilter, Alternate, AtLeast = custom_classes()
         return TotalSort(spec[1]) if k == "tsort" else Alternate() if k == "alt" else EvenFilter(spec[1])
+    if k == "atleast":
+        return custom_classes()[3](spec[1])
     if k == "pjoin":
         pred = lib_p(spec[2]) if spec[2] is not None else Predicate.literal(True)
         return Join(pred).partial(fixed_rel, is_lhs=spec[1])
@@ -274,7 +309,9 @@ def from_lib(op, fixed_rel):
 
     if isinstance(op, Identity):
         return ("ident",)
-    TotalSort, EvenFilter, Alternate = custom_classes()
+    TotalSort, EvenFilter, Alternate, AtLeast = custom_classes()
+    if isinstance(op, AtLeast):
+        return ("atleast", op.n)
     if isinstance(op, TotalSort):
         return ("tsort", op.tag)
     if isinstance(op, Alternate):
@@ -309,6 +346,8 @@ def fmt_spec(s):
         return f"custom-reordering(stable sort by -{s[1]})"
     if k == "alt":
         return "custom-filter(rows at even positions)"
+    if k == "atleast":
+        return f"custom-filter(all rows if at least {s[1]})"
     if k == "pjoin":
         return f"join[fixed {'lhs' if s[1] else 'rhs'}{'' if s[2] is None else ', on=' + fmt_p(s[2])}{'' if len(s) < 4 else ', common=' + str(list(s[3]))}]"
     return k
@@ -317,13 +356,19 @@ def fmt_spec(s):
 def run_case(case, stats):
     from lsst.daf.relation import ColumnError, EngineError, UnaryOperationRelation
 
-    universe, leaves, existing, new = case
+    universe, leaves, existing, new, *rest = case
+    fshape = rest[0] if rest else None
     env = Env(leaves)
     try:
         leaf, fixed = env.leafrels
         T = leaf_rows(leaves[0])
         F = leaf_rows(leaves[1])
         cols0, fcols = frozenset(leaves[0][1]), frozenset(leaves[1][1])
+        if fshape is not None:
+            fixed = fixed.without_duplicates().with_only_columns(set(fshape[1]))
+            F = [{t: r[t] for t in fshape[1]} for r in dedup_rows(F, False)]
+            fcols = frozenset(fshape[1])
+            stats.c["fixed-operand:dedup-then-projection"] += 1
         if well_formed(existing, cols0, fcols):
             stats.c["skipped:existing-invalid"] += 1
             return
@@ -353,7 +398,9 @@ def run_case(case, stats):
                 return
             new = from_lib(lnew, fixed)
         pair = f"{existing[0]}>{new[0]}"
-        ctx = f"existing {fmt_spec(existing)}; new {fmt_spec(new)}; target {fmt_leaves(leaves[:1])}; fixed {fmt_leaves(leaves[1:])}"
+        ctx = f"existing {fmt_spec(existing)}; new {fmt_spec(new)}; target {fmt_leaves(leaves[:1])}; fixed {fmt_leaves(leaves[1:])}" + (
+            f" deduplicated then projected onto {list(fshape[1])}" if fshape else ""
+        )
         try:
             c = lnew.commute(current)
         except Exception as e:
@@ -425,7 +472,7 @@ def run_case(case, stats):
         env.close()
 
 
-EXHAUSTIVE_NOTE = "all ordered pairs over a grid of 24 parameterised operations (vf/checks/c04.py:grid), plus 5 user-defined existing operations (Reordering / RowFilter subclasses) and predicate joins to a join identity, on 3 fixed targets"
+EXHAUSTIVE_NOTE = "all ordered pairs over a grid of 24 parameterised operations (vf/checks/c04.py:grid), plus 7 user-defined existing operations (Reordering / RowFilter subclasses) and predicate joins to a join identity, on 3 fixed targets"
 
 
 def grid():
@@ -469,7 +516,7 @@ def exhaustive(tier, stats, shard, nshards, run):
     ]
     fixed = ("L1", (A, D), ((0, 7), (1, 8), (2, 9), (2, 6)), 1, "data", (4, 4), "plain")
     g = grid()
-    customs = [("tsort", A), ("tsort", C), ("alt",), ("cfilt", A), ("cfilt", C)]
+    customs = [("tsort", A), ("tsort", C), ("alt",), ("cfilt", A), ("cfilt", C), ("atleast", 3), ("atleast", 5)]
     identity = ("L1", (), ((),), 1, "data", (1, 1), "plain")
     idjoins = [("pjoin", False, ("ge", ("ref", A), ("lit", 1))), ("pjoin", True, ("eq", ("ref", B), ("ref", C))), ("pjoin", False, None)]
     idx = 0
@@ -477,11 +524,12 @@ def exhaustive(tier, stats, shard, nshards, run):
         leaf = ("L0", (A, B, C), rows, 1, "data", (len(rows), len(rows)), "plain")
         pairs = [(fixed, existing, new) for existing in g + customs for new in g]
         pairs += [(identity, existing, new) for existing in g + customs for new in idjoins]
-        for fx, existing, new in pairs:
+        pairs += [(fixed, existing, new, ("dp", (A,))) for existing in g + customs for new in g if new[0] == "pjoin" and new[2] is None]
+        for fx, existing, new, *shape in pairs:
             idx += 1
             if idx % nshards != shard:
                 continue
-            case = (UNIVERSE, (leaf, fx), existing, new)
+            case = (UNIVERSE, (leaf, fx), existing, new) + tuple(shape)
             try:
                 run(case)
             except Violation as v:
@@ -491,14 +539,17 @@ def exhaustive(tier, stats, shard, nshards, run):
 
 
 def describe(case):
-    universe, leaves, existing, new = case
-    return {"target": fmt_leaves(leaves[:1]), "fixed_join_operand": fmt_leaves(leaves[1:]), "existing": fmt_spec(existing), "new": fmt_spec(new)}
+    universe, leaves, existing, new, *rest = case
+    d = {"target": fmt_leaves(leaves[:1]), "fixed_join_operand": fmt_leaves(leaves[1:]), "existing": fmt_spec(existing), "new": fmt_spec(new)}
+    if rest:
+        d["fixed_join_operand_shape"] = f"deduplicated, then projected onto {[str(t) for t in rest[0][1]]}"
+    return d
 
 
 def attribute(case, v):
     """D12: Projection.commute reports a full move past a Deduplication (pinned by
     tests/test_projection.py::test_backtracking_apply, so it cannot be repaired without editing the tests)."""
-    universe, leaves, existing, new = case
+    universe, leaves, existing, new, *rest = case
     if v.kind == "commutation-changes-rows" and existing[0] == "dedup" and new[0] == "proj" and v.extra.get("diff") == "content":
         return "D12"
     return None
